@@ -50,14 +50,16 @@ LEVEL_NOTE = ("Trusted: Coq kernel + vm_compute; the hand-written association-li
               "(ints within 64 bits, str-keyed dicts). Dictionary keys and field names are text. No axioms (Print Assumptions: closed).")
 DESIGN_REF = "DESIGN.md section 8, C02"
 COQ_IMPORTS = "From Orso Require Import Model.C02."
-COQ_CHECKS = {"row": "c02_row_check", "frame": "c02_frame_check", "session": "c02_session_check"}
-COQ_SHOW = {"row": "c02_row_show", "frame": "c02_frame_show", "session": "c02_session_show"}
+COQ_CHECKS = {"row": "c02_row_check", "frame": "c02_frame_check", "session": "c02_session_check", "source": "c02_source_check"}
+COQ_SHOW = {"row": "c02_row_show", "frame": "c02_frame_show", "session": "c02_session_show", "source": "c02_source_show"}
 RULE = ("row cases: field list (0..6 names, duplicates, confusable/Unicode/empty names) x dictionary (sub/superset of the fields, shuffled "
         "insertion order, values of every kind incl. None/NaN/-0.0/nested) x looked-up names present and absent, run through "
         "Row.create_class(fields)(dict) (also with reversed insertion order), DataFrame(rows=[], schema=fields).append(dict), the five views "
         "and get; frame cases: sequences of 0..6 dictionaries through DataFrame(list or generator) then append(dict); records handed over as dict, OrderedDict, dict subclasses, Counter, defaultdict and UserDict "
         "(input mapping must stay unchanged); sessions: histories that create several row classes / frames (dict-aware and tuples-only classes, from_arrow, "
         "DataFrame(dicts), DataFrame(rows=[], schema)) - mostly over the same name list - and use every handle after the others exist; "
+        "sources: the records handed to DataFrame(...) through each of 9 carrier classes (containers, one-shot iterators, readers over "
+        "read-once state, a wrapper round a generator), with records read from the object before and the object used again afterwards; "
         "exhaustive over the stated "
         "small scope, then random; a case is non-trivial when some field/column receives a non-None value from a dictionary; distinct by canonical JSON")
 TRUSTED = [
@@ -343,7 +345,7 @@ def _observe_frame(case):
     apps = [_mkrecord(items, pool, mapping) for items in case["appends"]]
     before = [_snap(m) for m in dicts + apps]
     try:
-        df = DataFrame((d for d in dicts) if case.get("gen") else dicts)
+        df = DataFrame(_mkcarrier(_carrier_of(case), dicts))
     except Exception as e:
         for n in ("columns", "rows", "columns_after", "rows_after", "dicts_after"):
             out[n] = _exc(e)
@@ -790,7 +792,216 @@ def _shrink_session(case):
         yield dict(case, mapping="dict")
 
 
+# ------------------------------------------------------------------ the object that delivers the dictionaries
+# {"kind": "source", "pool": [...], "carrier": c, "dicts": [items, ...], "ops": ["next" | "list" | "frame", ...], "mapping": ...}
+#   one object of class `carrier` made to deliver the records; "next" = next(iter(obj), None), "list" = list(obj),
+#   "frame" = DataFrame(obj).  Containers hand out a fresh iterator from the start every time; everything else
+#   advances one shared position whichever iterator object reads (Coq sees only that boolean).
+CARRIERS = ["list", "tuple", "dictvalues", "generator", "listiter", "map", "reader", "drain", "wrapped"]
+REWINDING = {"list", "tuple", "dictvalues"}
+
+
+class _Reader:
+    """records behind a read position (an open file): every iteration reads on from where the last one stopped"""
+
+    def __init__(self, records):
+        self.records = list(records)
+        self.pos = 0
+
+    def __iter__(self):
+        while self.pos < len(self.records):
+            self.pos += 1
+            yield self.records[self.pos - 1]
+
+
+class _Drain:
+    """hands out (and removes) whatever is waiting in a queue"""
+
+    def __init__(self, records):
+        import collections
+
+        self.queue = collections.deque(records)
+
+    def __iter__(self):
+        while self.queue:
+            yield self.queue.popleft()
+
+
+class _Wrapped:
+    """__iter__ returns the generator it was given (not self)"""
+
+    def __init__(self, generator):
+        self.generator = generator
+
+    def __iter__(self):
+        return self.generator
+
+
+def _mkcarrier(kind, records):
+    if kind == "list":
+        return list(records)
+    if kind == "tuple":
+        return tuple(records)
+    if kind == "dictvalues":
+        return {i: r for i, r in enumerate(records)}.values()
+    if kind == "generator":
+        return (r for r in records)
+    if kind == "listiter":
+        return iter(list(records))
+    if kind == "map":
+        return map(lambda r: r, list(records))
+    if kind == "reader":
+        return _Reader(records)
+    if kind == "drain":
+        return _Drain(records)
+    if kind == "wrapped":
+        return _Wrapped(r for r in list(records))
+    raise KeyError(kind)
+
+
+def _carrier_of(case):
+    return case.get("carrier") or ("generator" if case.get("gen") else "list")
+
+
+def _observe_source(case):
+    from orso.dataframe import DataFrame
+    from orso.row import Row
+
+    pool = _Pool(case["pool"])
+    mapping = case.get("mapping", "dict")
+    records = [_mkrecord(items, pool, mapping) for items in case["dicts"]]
+    before = [_snap(m) for m in records]
+    src = _mkcarrier(case["carrier"], records)
+    outs = []
+
+    def assoc(m):
+        return [[_name(k), pool.vid(v)] for k, v in m.items()]
+
+    for op in case["ops"]:
+        try:
+            if op == "next":
+                r = next(iter(src), None)
+                outs.append(["item", None if r is None else assoc(r)])
+            elif op == "list":
+                outs.append(["items", [assoc(r) for r in list(src)]])
+            elif op == "frame":
+                df = DataFrame(src)
+                cols = tuple(df.column_names)
+                n = df.rowcount
+                rs = list(df)
+                if n != len(rs) or len(df) != n or df.shape != (n, len(cols)):
+                    raise ValueError("rowcount/shape/len disagree with iteration")
+                if not all(isinstance(r, Row) and tuple(r._fields) == cols for r in rs):
+                    raise TypeError("a stored row is not a Row over the frame's columns")
+                outs.append(["frame", [_name(c) for c in cols], [[pool.vid(x) for x in tuple(r)] for r in rs]])
+            else:
+                raise KeyError(op)
+        except KeyError:
+            raise
+        except Exception as e:
+            outs.append(_exc(e))
+    return {"outs": outs, "input_unchanged": [_snap(m) for m in records] == before}
+
+
+def _oracle_source(case, obs):
+    """One row per dictionary the object delivers when the frame is built, columns from the first of them."""
+    pool = _Pool(case["pool"])
+    if obs.get("input_unchanged") is False:
+        return "the records handed over must be left unchanged"
+    pending = [_assoc(items, pool) for items in case["dicts"]]
+    order = [[k for k, _ in items] for items in case["dicts"]]
+    rewinds = case["carrier"] in REWINDING
+    for i, (op, out) in enumerate(zip(case["ops"], obs["outs"])):
+        where = f"op {i} {op}"
+        if _is_raise(out):
+            return f"{where}: must not raise, raised {out[1]}"
+        if op == "next":
+            want = ["item", [[k, pending[0][k]] for k in order[0]] if pending else None]
+            if out != want:
+                return f"{where}: the object must deliver its next record {want[1]}, got {out}"
+            if not rewinds:
+                pending, order = pending[1:], order[1:]
+        elif op == "list":
+            want = ["items", [[[k, D[k]] for k in o] for D, o in zip(pending, order)]]
+            if out != want:
+                return f"{where}: the object must deliver the records {want[1]}, got {out}"
+            if not rewinds:
+                pending, order = [], []
+        else:
+            cols = order[0] if pending else []
+            rows = [[D.get(c, 0) for c in cols] for D in pending]
+            if out != ["frame", cols, rows]:
+                return (f"{where}: the object delivers {len(pending)} dictionaries, so the frame must have the columns {cols} of the first "
+                        f"and exactly the rows {rows} (one per dictionary, each field's value at its column, 0=None when absent), "
+                        f"got columns {out[1] if len(out) > 1 else None} rows {out[2] if len(out) > 2 else None}")
+            if not rewinds:
+                pending, order = [], []
+    if len(obs["outs"]) != len(case["ops"]):
+        return "one observation per call expected"
+    return None
+
+
+def _source_to_coq(case, obs):
+    pool = _Pool(case["pool"])
+
+    def out(o):
+        if _is_raise(o):
+            return "(SrcRaise %s)" % (o[1] if o[1] in _EXN else "OtherError")
+        if o[0] == "item":
+            return "(SrcItem %s)" % L.opt(None if o[1] is None else _kvs(o[1]))
+        if o[0] == "items":
+            return "(SrcItems %s)" % _kvss(o[1])
+        return "(SrcFrameOut %s %s)" % (_keys(o[1]), _zss(o[2]))
+
+    ops = L.lst({"next": "SrcNext", "list": "SrcList", "frame": "SrcFrame"}[o] for o in case["ops"])
+    return ("source", "(%s, (%s : list zdict), (%s : list src_op), (%s : list (src_out key Z)))" % (
+        L.boolean(case["carrier"] in REWINDING), L.lst(_zdict(d, pool) for d in case["dicts"]), ops, L.lst(out(o) for o in obs["outs"])))
+
+
+def _source_exhaustive(tier):
+    ab = _small_dicts(_NAMES3[:2])
+    few = [ab[0], ab[1], ab[4], ab[7], ab[12]]
+    seqs = [[]] + [[d] for d in ab] + [[d1, d2] for d1 in (ab if tier == "thorough" else few) for d2 in (ab if tier == "thorough" else few)]
+    seqs += [[ab[1], ab[7], ab[0]], [ab[12], ab[4], ab[1], ab[9]], [ab[0], ab[0], ab[5]]]
+    hists = [["frame", "frame"], ["next", "frame", "list"], ["list", "frame"]]
+    if tier == "thorough":
+        hists += [["frame"], ["next", "next", "frame", "next", "frame"]]
+    for carrier in CARRIERS:
+        for ds in seqs:
+            for h in hists:
+                yield {"kind": "source", "pool": _XPOOL, "carrier": carrier, "dicts": ds, "ops": h, "mapping": "dict"}
+
+
+def _random_source(rng):
+    names = _rand_names(rng)
+    pool = [_rand_value(rng) for _ in range(rng.randint(1, 8))]
+    dicts = []
+    for j in range(rng.choice([0, 1, 2, 2, 3, 4, 6])):
+        dicts.append(_rand_dict(rng, names, len(pool), bias=[k for k, _ in dicts[0]] if j else None))
+    ops = [rng.choice(["next", "next", "list", "frame", "frame"]) for _ in range(rng.randint(0, 4))] + ["frame"]
+    if rng.random() < 0.3:
+        ops.append(rng.choice(["next", "list", "frame"]))
+    return {"kind": "source", "pool": pool, "carrier": rng.choice(CARRIERS), "dicts": dicts, "ops": ops, "mapping": _rand_mapping(rng)}
+
+
+def _shrink_source(case):
+    for key in ("ops", "dicts"):
+        l = case[key]
+        for i in reversed(range(len(l))):
+            yield dict(case, **{key: l[:i] + l[i + 1:]})
+    for i, d in enumerate(case["dicts"]):
+        for j in range(len(d)):
+            yield dict(case, dicts=case["dicts"][:i] + [d[:j] + d[j + 1:]] + case["dicts"][i + 1:])
+    if case.get("mapping", "dict") != "dict":
+        yield dict(case, mapping="dict")
+    for i, sp in enumerate(case["pool"]):
+        if sp != ["int", i + 1]:
+            yield dict(case, pool=case["pool"][:i] + [["int", i + 1]] + case["pool"][i + 1:])
+
+
 def observe(case):
+    if case["kind"] == "source":
+        return _observe_source(case)
     if case["kind"] == "session":
         return _observe_session(case)
     return _observe_row(case) if case["kind"] == "row" else _observe_frame(case)
@@ -897,6 +1108,8 @@ def _oracle_frame(case, obs):
 
 
 def oracle(case, obs):
+    if case["kind"] == "source":
+        return _oracle_source(case, obs)
     if case["kind"] == "session":
         return _oracle_session(case, obs)
     return _oracle_row(case, obs) if case["kind"] == "row" else _oracle_frame(case, obs)
@@ -941,6 +1154,8 @@ def _zdict(items, pool):
 
 
 def to_coq(case, obs):
+    if case["kind"] == "source":
+        return _source_to_coq(case, obs)
     if case["kind"] == "session":
         return _session_to_coq(case, obs)
     pool = _Pool(case["pool"])
@@ -964,6 +1179,10 @@ def to_coq(case, obs):
 # ------------------------------------------------------------------ evidence helpers
 def nontrivial_key(case, obs):
     pool = _Pool(case["pool"])
+    if case["kind"] == "source":
+        # non-trivial: a frame is built from an object that delivers a dictionary with a non-None value
+        fed = any(pool.ids[vi] != 0 for d in case["dicts"] for _, vi in d)
+        return json.dumps(case, sort_keys=True) if fed and "frame" in case["ops"] else None
     if case["kind"] == "session":
         # non-trivial: a dictionary with a non-None value reaches a class or frame while another handle exists
         creators = sum(1 for o in case["ops"] if o[0] in ("class", "arrow", "frame", "named"))
@@ -982,6 +1201,18 @@ def nontrivial_key(case, obs):
 def classify(case, obs):
     yield case["kind"]
     yield "mapping:" + case.get("mapping", "dict")
+    if case["kind"] == "source":
+        yield "carrier:" + case["carrier"]
+        yield "source-dicts=%d" % min(len(case["dicts"]), 4)
+        for o in case["ops"]:
+            yield "srcop:" + o
+        if "frame" in case["ops"] and case["ops"].index("frame") > 0:
+            yield "read-from-before-the-frame-is-built"
+        if case["ops"].count("frame") > 1:
+            yield "same-object-used-for-two-frames"
+        return
+    if case["kind"] == "frame":
+        yield "carrier:" + _carrier_of(case)
     if case["kind"] == "session":
         made = []
         for o in case["ops"]:
@@ -1032,6 +1263,11 @@ def classify(case, obs):
 
 # ------------------------------------------------------------------ generators
 def corpus():
+    # round 3 (seeded change r3s1): the records arrive through an object that is not its own iterator yet reads on
+    for carrier in ("reader", "drain", "wrapped"):
+        yield {"kind": "source", "pool": [["str", "alpha"], ["int", 1], ["str", "beta"], ["int", 2], ["str", "gamma"], ["int", 4], ["bool", True]],
+               "carrier": carrier, "mapping": "dict", "ops": ["frame", "frame"],
+               "dicts": [[["name", 0], ["n", 1]], [["n", 3], ["name", 2]], [["name", 4]], [["n", 5], ["extra", 6]]]}
     # round 2 (seeded change r2s1): a tuples-only class (from_arrow) over the same names created first
     yield {"kind": "session", "pool": [["int", 1], ["int", 2], ["str", "one"], ["str", "two"], ["str", "x"]], "mapping": "dict",
            "ops": [["arrow", ["id", "name"], [[0, 2], [1, 3]]], ["frame", [[["id", 0], ["name", 2]]], False],
@@ -1114,6 +1350,9 @@ def exhaustive(tier):
         # several handles alive in one process
         for c in _session_exhaustive(tier):
             yield c
+        # the object that delivers the dictionaries, read from before and used again afterwards
+        for c in _source_exhaustive(tier):
+            yield c
 
     return it(), (f"row: all field lists of <= {maxf} names over the 3-name alphabet {{a,b,c}} x all dictionaries over that alphabet "
                   f"(every subset, every insertion order, each value its own or None; 79) x 6 lookups; frame: all sequences of <= 2 "
@@ -1123,7 +1362,11 @@ def exhaustive(tier):
                   + "; sessions: every sequence of 1 or 2 handle creations out of {dict-aware class, tuples-only class, from_arrow frame, "
                     "DataFrame(dicts), DataFrame(rows=[], schema)} x name lists {[a,b],[b,a],[a]" + ("" if tier == "quick" else ",[a,b,c]")
                   + "}, and triples over [a,b]" + (" (third creator: the two class kinds)" if tier == "quick" else "")
-                  + ", each followed by a use of every handle and a re-read of every row and frame")
+                  + ", each followed by a use of every handle and a re-read of every row and frame"
+                  + "; sources: each of the 9 carrier classes (list, tuple, dict values view, generator, list iterator, map, reader over a read "
+                    "position, queue drain, wrapper round a generator) x record sequences (empty, the 13 single dictionaries over {a,b}, "
+                  + ("all 169 pairs" if tier == "thorough" else "25 pairs") + ", three longer ones) x call histories "
+                  + ("{frame; frame,frame; next,frame,list; list,frame; next,next,frame,next,frame}" if tier == "thorough" else "{frame,frame; next,frame,list; list,frame}"))
 
 
 _PLAIN = ["a", "b", "c", "d", "e", "f", "g"]
@@ -1202,7 +1445,7 @@ def _random_frame(rng):
     for j in range(n):
         dicts.append(_rand_dict(rng, names, len(pool), bias=[k for k, _ in dicts[0]] if j else None))
     appends = [_rand_dict(rng, names, len(pool), bias=[k for k, _ in dicts[0]] if dicts else None) for _ in range(rng.choice([0, 0, 1, 2]))]
-    return {"kind": "frame", "pool": pool, "dicts": dicts, "appends": appends, "gen": rng.random() < 0.3, "mapping": _rand_mapping(rng)}
+    return {"kind": "frame", "pool": pool, "dicts": dicts, "appends": appends, "gen": False, "carrier": rng.choice(CARRIERS), "mapping": _rand_mapping(rng)}
 
 
 def generate(rng, tier):
@@ -1211,15 +1454,20 @@ def generate(rng, tier):
         yield _random_frame(rng) if i % 3 == 2 else _random_row(rng)
     for i in range(500 if tier == "quick" else 10000):
         yield _random_session(rng)
+    for i in range(400 if tier == "quick" else 8000):
+        yield _random_source(rng)
 
 
 def search(rng):
     while True:
         r = rng.random()
-        yield _random_session(rng) if r < 0.3 else _random_frame(rng) if r < 0.55 else _random_row(rng)
+        yield _random_source(rng) if r < 0.15 else _random_session(rng) if r < 0.4 else _random_frame(rng) if r < 0.6 else _random_row(rng)
 
 
 def shrink(case):
+    if case["kind"] == "source":
+        yield from _shrink_source(case)
+        return
     if case["kind"] == "session":
         yield from _shrink_session(case)
         return
@@ -1238,6 +1486,8 @@ def shrink(case):
                     yield dict(case, **{key: l[:i] + [d[:j] + d[j + 1:]] + l[i + 1:]})
         if case.get("gen"):
             yield dict(case, gen=False)
+        if case.get("carrier") and case["carrier"] in REWINDING and case["carrier"] != "list":
+            yield dict(case, carrier="list")
     if case.get("mapping", "dict") != "dict":
         yield dict(case, mapping="dict")
     # simplify values
